@@ -11,7 +11,7 @@ def Desc.quadlets (d : Desc) : Nat := (d.offset + d.bits + 31) / 32
 
 /-- An access made by Utils.c on behalf of descriptor `d` of the PDU at `pdu`. -/
 def FieldAccess (d : Desc) (pdu : Nat) (a : Access) : Prop :=
-  a.width = 4 ∧ a.align = 4 ∧ pdu + 4 * d.quadlet ≤ a.addr ∧
+  a.width = 4 ∧ a.align = 1 ∧ pdu + 4 * d.quadlet ≤ a.addr ∧
     a.addr + 4 ≤ pdu + 4 * (d.quadlet + d.quadlets)
 
 def PosInv (d : Desc) (qo pb : Nat) : Prop :=
